@@ -253,7 +253,9 @@ PLAN["C06"] = dict(
                 "from the decision table of the property statement. Exhaustive grid: 6 heads x 8 flag sets x available 0..40 "
                 "x every Content-Length 0..avail+3. Pipelining: 1..5 self-delimiting messages back to back, parsed from each "
                 "returned offset (skip-body: harness advances by Content-Length) on a Reset() or new object, under a chunk "
-                "schedule, each compared with the same message parsed alone."),
+                "schedule, each compared with the same message parsed alone. End-of-input mode: a well-formed head cut at a "
+                "generated position gives more-bytes-needed without the no-more-data flag and a definitive failure with Err() "
+                "set with it (resumed and one-shot)."),
     level_note=_MODEL_NOTE,
     rule=("case = (head spec, Content-Length policy, available bytes, flags) or (k messages, mode, schedule); non-trivial = "
           "body parsing on with Content-Length != available bytes, or k >= 2; distinct by case hash / grid cases distinct by construction"),
@@ -276,7 +278,9 @@ PLAN["C07"] = dict(
                 "the value; CRLF / lone CR / lone LF line ends; empty values; repeated headers - parsed with hb == nil (generic "
                 "values) and hb == &PHdrVals (type-valid values), header capacity none, 0..N+1. Expected: N, PFlags, and for "
                 "every stored header type (reference table), name bytes+offset, value bytes+offset (first to last non-LWS "
-                "byte), GetHdr(t) = first header of type t, missing otherwise."),
+                "byte), GetHdr(t) = first header of type t, missing otherwise; the exported flag accessors and constants "
+                "(Test/Any/AllSet/Set/Clear/Reset, Hdr*F) agree with the set of types seen; SetHdr adds only a valid type not "
+                "yet present."),
     level_note=_MODEL_NOTE,
     rule=("case = (list of header specs, blank line, tail, typed?, capacities); non-trivial = >= 2 headers and at least one "
           "of: fold, lone CR/LF line end, whitespace before the colon, empty value, compact or re-cased known name, capacity < N; "
@@ -354,7 +358,11 @@ PLAN["C17"] = dict(
                 "parameter once, in order, exact name/value bytes and offsets, more-values offset = next name, final verdict and "
                 "offset naming the terminator; wrappers: N, returned count, Types, per-item type, stored prefix. One byte outside "
                 "the documented character set injected at a generated name/value position must be rejected at that position. "
-                "GetViaBrSig(via with generated parameter list) == GetViaBrSig(canonical 'x;branch=value')."),
+                "The whitespace of the whitespace-then-token terminator is drawn from SP/HT/several/folds (offset = last blank "
+                "before the token); the mode's terminator byte where a name must start is rejected; list predicates "
+                "(Empty/More/PNo/HNo). GetViaBrSig(via with generated parameter list) == GetViaBrSig(canonical 'x;branch=value'), "
+                "its length is that of the branch without the z9hG4bK cookie, its SigHas*F flags are the special characters of "
+                "that text, (0,0) without a branch / without any parameter / behind a malformed parameter."),
     level_note=_MODEL_NOTE,
     rule=("case = (list spec with flags and terminator, junk prefix, injected byte + position, entry point, capacity); "
           "non-trivial = >= 2 items or a quoted value or LWS around a delimiter (injected cases always); distinct by case hash"),
@@ -377,7 +385,8 @@ PLAN["C14"] = dict(
                 "concatenation reproduces the input; differential against an independent reference split for inputs with at "
                 "most one '@' whose first byte after the scheme is ordinary and whose user part has no brackets; PortNo equals "
                 "the decimal port. tel: => empty host, number as user (tel: with '@' only has to return). On reject: error "
-                "position inside the input."),
+                "position inside the input. sip:/sips: URIs built component by component (user possibly with ; ? & = /) must be "
+                "accepted; every accepted URI is also parsed into a structure used before and Reset()."),
     level_note="Structural oracle needs no per-input expectation; the reference split is hand-written and applied only inside the stated domain restrictions (DESIGN.md section 4 C14).",
     rule=("case = URI text; non-trivial = accepted with >= 3 non-empty components or a ';' '?' ':' before the '@'; enumerated "
           "strings distinct by construction, generated ones by hash"),
@@ -435,7 +444,12 @@ PLAN["C19"] = dict(
                 "while Call-ID, From-tag and first-Via branch are kept; parsed under a chunk schedule with all headers fitting. "
                 "Oracle: MsgSig of every variant == MsgSig of the base; HdrSig == reference sequence (first occurrences in order, "
                 "Contact only for INVITE, compact bit from a one-letter name), HdrSigLen <= 8, method = table lookup; String() "
-                "matches the documented shape; replies => ErrHdrEmpty; header capacity < N => the same signature or ErrHdrTrunc."),
+                "matches the documented shape and is the method digit followed by exactly the header ids; replies => ErrHdrEmpty; "
+                "header capacity < N => the same signature or ErrHdrTrunc. Absolute part: the documented SigHas*F flags of "
+                "FromSig / ViaBSig / CidSig equal the special characters present in the From tag / the first-Via branch without "
+                "the z9hG4bK cookie / the Call-ID outside an embedded IPv4 address; the IP-position flag follows the address "
+                "span; CidSLen = ceil(len/4) saturating at 0xff (Call-IDs of ~1020 bytes generated); fillers may look like Via "
+                "values with ;branch= and ;tag=."),
     level_note=_MODEL_NOTE,
     rule=("case = (method, base header list, variant header lists, schedule, capacity); non-trivial = >= 3 fingerprinted "
           "headers and >= 1 variant; distinct by case hash"),
